@@ -149,13 +149,19 @@ async def execute(case, transport="mem"):
             if c is not None and c.client_closed_at is None and c.server_closed_at is None:
                 await c.close()
                 await world.tick()
+        # (the server runs its cleanups one at a time -- each holds the manager's dictionary lock while it pauses -- so every
+        # closed connection, background ones included, needs its own release)
         for _ in range(40 + 2 * len(noise_conns)):
             if not world.gate.pending:
                 await world.tick()
                 if not world.gate.pending:
                     break
             world.gate.release_one()
-            await (world.tick() if not noise_conns else world.quiesce())
+            if noise_conns and transport == "real":
+                await asyncio.sleep(0.02)
+                world.now += 1
+            else:
+                await world.tick()
         # ---- history invariant (S) and acknowledgements ---------------------------------------------------------
         live = [c for c in conns if c is not None]
         overlap = False
@@ -172,22 +178,22 @@ async def execute(case, transport="mem"):
                 first_other = next((k for k in kinds if k != "init"), None)
                 if first_other is not None and first_other != "control":
                     raise Violation("connection %d was opened while connection %d was still open but was not told to wait (messages %r) "
-                                    "| events: %r" % (cj.index, blockers[0].index, kinds, executed), "W:not_told_to_wait")
+                                    "| events: %r" % (j, live.index(blockers[0]), kinds, executed), "W:not_told_to_wait")
             for (t, m) in cj.messages:
                 mt = m.get("type")
                 ok_reply = mt in ("config", "upload_edb") and isinstance(m.get("decoded"), dict) and m["decoded"].get("ok") is True
                 if ok_reply and mt == "config":
                     ack["state"] = max(ack["state"], 1)
-                    ack["cfg"].add(cj.index)
+                    ack["cfg"].add(j)
                 if ok_reply and mt == "upload_edb":
                     ack["state"] = max(ack["state"], 2)
-                    ack["edb"].add(cj.index)
+                    ack["edb"].add(j)
                 if mt in ("config", "upload_edb", "result"):
                     for i in range(j):
                         ci = live[i]
                         if ci.closed_at is None or ci.closed_at > t:
                             raise Violation("connection %d received a %r reply at event %d while the earlier-opened connection %d was "
-                                            "still open (closed at %r) | events: %r" % (cj.index, mt, t, ci.index, ci.closed_at, executed),
+                                            "still open (closed at %r) | events: %r" % (j, mt, t, i, ci.closed_at, executed),
                                             "S:reply_while_earlier_connection_open")
         # ---- probe ---------------------------------------------------------------------------------------------------
         probe = world.new_conn(sid)
@@ -391,7 +397,7 @@ def shards(tier):
     pairs, triples = script_sets(tier)
     nsh = 8 if tier == "quick" else 14
     out = [{"kind": "exhaustive", "part": i, "of": nsh} for i in range(nsh)]
-    out += [{"kind": "hyp", "i": i} for i in range(2 if tier == "quick" else 2)]
+    out += [{"kind": "hyp", "i": i} for i in range(2 if tier == "quick" else 8)]
     out += [{"kind": "fidelity", "i": i} for i in range(1 if tier == "quick" else 4)]
     out += [{"kind": "noise", "part": i} for i in range(len(NOISE_SCRIPTS))]
     return out
@@ -400,7 +406,7 @@ def shards(tier):
 def run_shard(spec, seed, tier):
     res = ShardResult()
     if spec["kind"] == "hyp":
-        hyp.search(res, st_case(), body, seed, 150 if tier == "quick" else 5000)
+        hyp.search(res, st_case(), body, seed, 200 if tier == "quick" else 4000)
         confirm(res)
         return res
     if spec["kind"] == "fidelity":
